@@ -264,7 +264,7 @@ class Builder:
 
 def identity(c):
     """identifying fields of a session (what a replay needs)"""
-    d = {k: c[k] for k in ('mode', 'mt', 'reg', 'chunks', 'rbufs', 'pace', 'ff', 'sf', 'short', 'serr', 'gate', 'ct',
+    d = {k: c[k] for k in ('mode', 'mt', 'reg', 'chunks', 'rbufs', 'pace', 'ff', 'sf', 'short', 'serr', 'gate', 'after', 'ct',
                            'uri', 'cl', 'wh', 'status') if k in c and c[k] not in (None, '', [], False)}
     d['in'] = bytes(c['in']).decode('latin1')
     return d
@@ -305,9 +305,8 @@ def resp_fields(t, reg, rnd, ct='K1', ext='K1', exclude_known=True):
         f['uri'] = rnd.choice(['/app', '/static/x.min', '/a.b/c']) + T['ext']
     else:
         f['uri'] = rnd.choice(['/app', '/img/logo.png', '/', '/dir.js/file', '/x.unknownext'])
-    if f['ct'] != '' and rnd.random() < 0.3:
-        # a query string after the path; only together with a Content-Type (known finding C12/query: without one the
-        # code takes the extension of RequestURI including the query - pinned witness in known/C12.ndjson)
+    if rnd.random() < 0.3:
+        # a query string after the path: the extension is that of the path, with or without a Content-Type
         f['uri'] += rnd.choice(['?v=1', '?a=b&c=d.css', '?'])
     return f
 
@@ -329,6 +328,7 @@ def build_from_init(B, init, t, data, rnd, maxout):
         c['short'] = bool(cfg['srcshort']) and c['sf'] > 0
         c['serr'] = rnd.choice(['plain', 'unexpected', 'wrapeof'])
     c['gate'] = cfg['gate'] == 'close'
+    c['after'] = bool(cfg.get('after')) or (mode == 'response' and cfg['mw'] == 'rw' and rnd.random() < 0.3)
     if mode == 'reader':
         c['rbufs'] = [cfg['cbuf']] if cfg['cbuf'] < 3 else rnd.choice([[4096], [3, 1, 512], [7]])
         c['pace'] = rnd.choice(['', 'consumerfirst', 'workerfirst'])
@@ -387,7 +387,7 @@ def make_cases(ctx, inits, cuts, suite, bench, profile):
             for pi, p in enumerate(parts):
                 reg = REGS[(pi + idx) % 3]
                 B.add(mode='writer', mt=mt_for(t, reg, rnd, params=(pi % 4 == 0)), reg=reg, chunks=p, tag='cuts:' + t,
-                      gate=(pi % 7 == 3), **{'in': s})
+                      gate=(pi % 7 == 3), after=(pi % 5 == 2), **{'in': s})
                 if len(s) <= (4 if quick else 6):
                     # the same partition as source reads of the reader wrapper and as handler writes
                     B.add(mode='reader', mt=mt_for(t, reg, rnd, params=False), reg=reg, chunks=p, tag='cuts:' + t,
@@ -420,6 +420,7 @@ def make_cases(ctx, inits, cuts, suite, bench, profile):
                 c['status'] = rnd.choice([200, 404])
             if mode in ('writer', 'response', 'mw', 'mwerr'):
                 c['gate'] = rnd.random() < 0.4
+                c['after'] = mode in ('writer', 'response') and rnd.random() < 0.3
             if mode in ('bytes', 'string'):
                 c['chunks'] = []
             B.add(**c)
@@ -548,7 +549,7 @@ def crash_line(c, stderr):
     """the process died inside this session: recorded as a Panic event (confirmed by the isolated rerun)"""
     w = dict(n=0, h='', b=[], e='', t='')
     return dict(id=c['id'], mode=c['mode'], mt=c.get('mt', ''), reg=c.get('reg', ''), tag=c.get('tag', ''), ff=c.get('ff', 0),
-                sf=c.get('sf', -1), gate=bool(c.get('gate')), small=False, inn=len(c['in']), inh='', h0='', nwrite=0,
+                sf=c.get('sf', -1), gate=bool(c.get('gate')), after=False, small=False, inn=len(c['in']), inh='', h0='', nwrite=0,
                 want=w, ct=c.get('ct', ''), xt='', cl=c.get('cl', -1), wct=w, wxt=w, **{'in': []},
                 ev=[dict(k='Panic', n=0, c=0, e='', t=stderr[-400:], b=[])])
 
@@ -865,8 +866,8 @@ def run(ctx):
              '(TLC, %s), all partitions Cuts(n) of short real inputs up to %d bytes (TLC; quick tier: all partitions up to 5 bytes, seeded sample for 6), seeded partitions (incl. empty and '
              '1-byte chunks) of the test suites\' inputs and benchmark files for all six media types. Non-trivial = the plain '
              'call succeeds, changes the bytes, and the input is split over more than one call (or goes through Bytes/String). '
-             'Excluded from generation (known finding, pinned witness replayed): a request URI with a query string when the '
-             'handler sets no Content-Type (query strings are generated together with a Content-Type).'
+             'Nothing is excluded from generation; the witnesses of the two fixed findings (stale Content-Length, query string '
+             'in the request URI) are replayed as regression cases.'
              % ('all of them' if not quick else 'seeded sample', max(cuts)),
         samples=samples,
         exhaustive=not quick,
